@@ -614,6 +614,20 @@ func (sc *SpecCtx) call(e *Expr) Value {
 			}
 		}
 		sc.fail("farr: no field %s", e.Args[1].Val)
+	case "allocated": // allocated(x): x is a live object of the heap being described
+		a := sc.eval(e.Args[0])
+		if a.K == VAddr {
+			a = st.addrToRef(a)
+		}
+		t := a.T
+		if a.K == VSlice {
+			t = a.Arr
+		}
+		b := st.brk
+		if sc.cur == sc.old && sc.cur != st.heap {
+			b = sc.brkOld()
+		}
+		return boolV(fmt.Sprintf("(and (< 0 %s) (< %s %s))", t, t, b))
 	case "allocated_at_entry":
 		a := sc.eval(e.Args[0])
 		return boolV(fmt.Sprintf("(and (< 0 %s) (< %s %s))", a.T, a.T, sc.brkOld()))
@@ -635,6 +649,18 @@ func (sc *SpecCtx) call(e *Expr) Value {
 			return Value{K: VRef, T: v.Fs[0].T, Ty: v.Fs[0].Ty}
 		}
 		return Value{K: VRef, T: "(iface_int " + v.T + ")", Ty: types.Typ[types.UnsafePointer]}
+	case "store": // store(a, i, v): array a updated at i
+		a, i, v := sc.eval(e.Args[0]), sc.eval(e.Args[1]), sc.eval(e.Args[2])
+		if a.K != VArray {
+			sc.fail("store() of a non-array")
+		}
+		return Value{K: VArray, T: fmt.Sprintf("(store %s %s %s)", a.T, i.T, v.T), Ty: a.Ty}
+	case "f2i": // f2i(x): truncation of a real towards zero (Go's float -> int conversion when representable)
+		v := sc.eval(e.Args[0])
+		if v.K != VReal {
+			return v
+		}
+		return intV(fmt.Sprintf("(ite (>= %s 0.0) (to_int %s) (- (to_int (- %s))))", v.T, v.T, v.T))
 	case "param": // param(x): the entry value of parameter x (invariants otherwise see the current value)
 		if len(e.Args) == 1 && e.Args[0].Op == "ident" {
 			if v, ok := sc.names[e.Args[0].Name]; ok {
@@ -745,6 +771,8 @@ func ghostType(g *GhostDef) types.Type {
 		return types.Typ[types.Float64]
 	case "bytes":
 		return types.NewArray(types.Typ[types.Uint8], 0)
+	case "reals":
+		return types.NewArray(types.Typ[types.Float64], 0)
 	case "ints":
 		return types.NewArray(types.Typ[types.Int], 0)
 	}
